@@ -3,14 +3,19 @@ package scen
 import (
 	"bufio"
 	"bytes"
+	"errors"
 	"fmt"
 	"io"
 	"reflect"
+	"strconv"
+	"strings"
 
 	json "github.com/go-json-experiment/json"
 	"github.com/go-json-experiment/json/jsontext"
+	jsonv1 "github.com/go-json-experiment/json/v1"
 
 	"verifsim/core"
+	"verifsim/gen"
 	"verifsim/refjson"
 )
 
@@ -72,6 +77,15 @@ var decTargets = []struct {
 	{"tFallbackAny", func() any { return new(tFallbackAny) }},
 	{"[]tFallbackValue", func() any { return new([]tFallbackValue) }},
 	{"map[string]tFallbackValue", func() any { return new(map[string]tFallbackValue) }},
+	{"[]fmt.Stringer", func() any { return new([]fmt.Stringer) }},
+	{"map[string]error", func() any { return new(map[string]error) }},
+	{"struct{S fmt.Stringer;T []error}", func() any {
+		return new(struct {
+			S fmt.Stringer
+			T []error
+			U [2]fmt.Stringer
+		})
+	}},
 }
 
 type DecArshalPlan struct {
@@ -86,6 +100,8 @@ type DecArshalPlan struct {
 	BufioSize  int           `json:"bufio_size,omitempty"`
 	Read       core.ReadPlan `json:"read"`
 	PreWarm    int           `json:"prewarm"` // earlier pooled calls (history for C03/C18 flavours)
+	Legacy     bool          `json:"v1_default_options"` // DefaultOptionsV1 (legacy error semantics: semantic errors are not fatal)
+	Noop       int           `json:"noop_opts"` // path-switching options that keep semantics: 1 AllowDuplicateNames on dup-free input, 2 declining Unmarshalers for any, 3 both
 }
 
 type DecArshal struct {
@@ -100,12 +116,44 @@ func (sc *DecArshal) plan(t *core.Tape, env *Env) *DecArshalPlan {
 	p.Route = []string{"read", "decode"}[ps.Draw(2)]
 	p.Target = ps.Draw(len(decTargets))
 	p.TargetName = decTargets[p.Target].Name
+	p.Legacy = sc.Mode != "c03" && ps.Chance(1, 5)
 	is := t.S("input")
 	mutP := 2
 	if sc.Mode == "c03" {
 		mutP = 0
 	}
 	p.Input = genInputCfg(is, env, mutP, p.Route == "read", sc.Mode == "c03")
+	if sc.Mode == "c03" {
+		// untyped targets, valid duplicate-free texts, strings from colliding
+		// families repeated across values, and semantics-preserving options
+		// that switch the internal route
+		p.AllowUTF8, p.AllowDup = false, false
+		p.Target = []int{0, 1, 2, 8}[ps.Draw(4)]
+		p.TargetName = decTargets[p.Target].Name
+		p.Noop = ps.Draw(4)
+		if ps.Chance(1, 6) {
+			p.Route = "bbreuse"
+		}
+		var in []byte
+		nvals := 1
+		if p.Route == "decode" {
+			nvals = 1 + is.Draw(6)
+		}
+		for k := 0; k < nvals; k++ {
+			cfg := gen.JSONCfg{MaxBytes: []int{256, 1024, 4096}[is.Weighted(4, 3, 1)], MaxDepth: 2 + is.Draw(5), CollideNames: is.Chance(1, 2)}
+			v := gen.Text(is, cfg)
+			// steer the top-level kind toward the target
+			switch p.TargetName {
+			case "map[string]any":
+				v = append(append([]byte(`{"w":`), v...), '}')
+			case "[]any":
+				v = append(append([]byte(`[`), v...), ']')
+			}
+			in = append(in, v...)
+			in = append(in, " \n"[is.Draw(2)])
+		}
+		p.Input = in
+	}
 	n := len(p.Input)
 	rs := t.S("reader")
 	switch rs.Weighted(8, 2) {
@@ -156,6 +204,19 @@ func arshalOpts(utf8, dup bool) []json.Options {
 	return []json.Options{jsontext.AllowInvalidUTF8(utf8), jsontext.AllowDuplicateNames(dup)}
 }
 
+// noopOpts are options that must not change the meaning but disable the
+// specialised untyped decoder or the duplicate-name bookkeeping.
+func noopOpts(k int) []json.Options {
+	var os []json.Options
+	if k&1 != 0 {
+		os = append(os, jsontext.AllowDuplicateNames(true))
+	}
+	if k&2 != 0 {
+		os = append(os, json.WithUnmarshalers(json.UnmarshalFromFunc(func(d *jsontext.Decoder, v *any) error { return errors.ErrUnsupported })))
+	}
+	return os
+}
+
 type uresult struct {
 	Val any
 	Err errClass
@@ -175,6 +236,12 @@ func (sc *DecArshal) Run(t *core.Tape, env *Env) (any, []core.Violation) {
 	}
 	in := p.Input
 	opts := arshalOpts(p.AllowUTF8, p.AllowDup)
+	if p.Noop != 0 {
+		opts = append(opts, noopOpts(p.Noop)...)
+	}
+	if p.Legacy {
+		opts = append([]json.Options{jsonv1.DefaultOptionsV1()}, opts...)
+	}
 	tgt := decTargets[p.Target]
 
 	// history: a few earlier pooled calls so that the pooled decoder arrives used
@@ -192,6 +259,32 @@ func (sc *DecArshal) Run(t *core.Tape, env *Env) (any, []core.Violation) {
 	tap := &core.Tap{R: src}
 
 	switch p.Route {
+	case "bbreuse":
+		// a caller-owned bytes.Buffer used for one message, Reset, refilled with
+		// the text under test; an unrelated streaming call runs in between
+		bb := new(bytes.Buffer)
+		bb.WriteString(`{"earlier":["prefix__x__suffix","prefix__y__suffix",` + strings.Repeat(`"pad",`, len(in)/8) + `1]}`)
+		var x1, y any
+		json.UnmarshalRead(bb, &x1)
+		bb.Reset()
+		bb.Write(in)
+		json.UnmarshalRead(tap0(in, p), &y, opts...)
+		got := tgt.New()
+		gerr := classify(json.UnmarshalRead(bb, got, opts...))
+		want := tgt.New()
+		werr := classify(json.Unmarshal(append([]byte(nil), in...), want, opts...))
+		st.Steps += 3
+		st.Nontrivial = true
+		if gerr != werr || (werr.Kind == "" && !reflect.DeepEqual(got, want)) {
+			if report("C03", "C03/route-disagreement", "reused-bytes.Buffer/"+tgt.Name, "UnmarshalRead from a reused bytes.Buffer: %s err=%v ; Unmarshal: %s err=%v", render(got), gerr, render(want), werr) {
+				return p, viols
+			}
+		}
+		if gerr.Kind == "" {
+			if v := sc.meaningCheck(p, in, got, tgt.Name, st); v != nil {
+				viols = append(viols, *v)
+			}
+		}
 	case "read":
 		want := tgt.New()
 		werr := classify(json.Unmarshal(append([]byte(nil), in...), want, opts...))
@@ -240,12 +333,12 @@ func (sc *DecArshal) Run(t *core.Tape, env *Env) (any, []core.Violation) {
 		ref := refjson.Scan(in, refjson.Opts{AllowInvalidUTF8: p.AllowUTF8, AllowDuplicateNames: p.AllowDup})
 		for k := 0; k < 40; k++ {
 			want := tgt.New()
-			werr := classify(json.UnmarshalDecode(tw, want))
+			werr := classify(json.UnmarshalDecode(tw, want, noopOpts(p.Noop&2)...))
 			wobs := observe(tw, tw.InputOffset(), true)
 			var got any
 			var gerr errClass
 			got = tgt.New()
-			gerr = classify(json.UnmarshalDecode(d, got))
+			gerr = classify(json.UnmarshalDecode(d, got, noopOpts(p.Noop&2)...))
 			st.Steps++
 			if gerr.Kind == "injected" {
 				st.Probe("decarshal/decode-fault-surfaced")
@@ -314,7 +407,10 @@ func (sc *DecArshal) Run(t *core.Tape, env *Env) (any, []core.Violation) {
 }
 
 func decOpts2(p *DecArshalPlan) []jsontext.Options {
-	return []jsontext.Options{jsontext.AllowInvalidUTF8(p.AllowUTF8), jsontext.AllowDuplicateNames(p.AllowDup)}
+	if p.Legacy {
+		return []jsontext.Options{jsonv1.DefaultOptionsV1(), jsontext.AllowInvalidUTF8(p.AllowUTF8), jsontext.AllowDuplicateNames(p.AllowDup)}
+	}
+	return []jsontext.Options{jsontext.AllowInvalidUTF8(p.AllowUTF8), jsontext.AllowDuplicateNames(p.AllowDup || p.Noop&1 != 0)}
 }
 
 func render(v any) string {
@@ -338,7 +434,11 @@ func (sc *DecArshal) meaningCheck(p *DecArshalPlan, text []byte, got any, tname 
 	}
 	want, err := refjson.DecodeAny(text)
 	if err != nil {
-		return nil // overflow etc.: the library must have failed too, checked elsewhere
+		if errors.Is(err, strconv.ErrRange) {
+			v := core.Violationf("C03", "C03/overflow-accepted", tname, "Unmarshal succeeded although a number overflows float64: text=%s", clip(text, 200))
+			return &v
+		}
+		return nil // not a duplicate-free valid text
 	}
 	g := reflect.ValueOf(got).Elem().Interface()
 	if !refjson.EqualAny(g, want) {
@@ -347,4 +447,9 @@ func (sc *DecArshal) meaningCheck(p *DecArshalPlan, text []byte, got any, tname 
 	}
 	st.Probe("c03/meaning-checked/" + tname)
 	return nil
+}
+
+// tap0 builds a fresh chunked reader over in with the plan's read script.
+func tap0(in []byte, p *DecArshalPlan) io.Reader {
+	return core.NewSimReader(in, p.Read)
 }
